@@ -31,7 +31,7 @@ def cells(tier, seed):
     rnd = core.rng_for(seed, PROP, tier)
     waves = refs.all_wavelets()
     out = []
-    reps = 1 if tier == 'quick' else 5
+    reps = 1 if tier == 'quick' else 8
     for w in waves:
         for mode in MODES4:
             for _ in range(reps):
